@@ -3,7 +3,7 @@ import itertools
 
 ID = "C08"
 RULE = (
-    "case = (ordered group of 1..2 (thorough 3) members from an 11-member alphabet without cross-path signals, file over "
+    "case = (ordered group of 1..2 (thorough 3) members from an 12-member alphabet without cross-path signals, file over "
     "{[k,i],[n,i],blank}, run method); for every member the lines, variables (incl. private bookkeeping), printouts, is_valid, "
     "scan_count, match_count of the group run must equal those of a standalone CsvPath on the registered file; for the "
     "breadth-first methods the lines handed to the caller must equal, per record, the union (if_all_agree: intersection) of the "
@@ -11,7 +11,7 @@ RULE = (
     "(member, file, per-member observation)"
 )
 BOUNDS = {
-    "quick": "11 singles + 110 ordered pairs x 12 files of <=3 records x 6 run methods (+ if_all_agree for the breadth-first methods)",
+    "quick": "12 singles + 132 ordered pairs x 12 files of <=3 records x 6 run methods (+ if_all_agree for the breadth-first methods)",
     "thorough": "singles, pairs, 990 ordered triples x all 40 files of <=3 records x 6 run methods (+ if_all_agree)",
 }
 CHUNK = 30
@@ -33,8 +33,9 @@ MEMBERS = [
     '~ id: nr run-mode: no-run ~ $[*][fail() push("ran", line_number())]',
     "$[1*][yes()]",
     "~ id: er ~ $[*][@e = add(#0, 1)]",
+    '~ id: tl ~ $[*][@t = total_lines() @cl = count_lines() print("$.csvpath.total_lines $.csvpath.count_lines ")]',
 ]
-IDS = ["f1", "w1", "p1", "st", "fa", "ad", "la", "nm", "nr", None, "er"]
+IDS = ["f1", "w1", "p1", "st", "fa", "ad", "la", "nm", "nr", None, "er", "tl"]
 FILES_Q = ["k", "nk", "kn", "nkn", "knk", "nbk", "kb", "", "b", "nnk", "kkn", "bkn"]
 
 
